@@ -96,3 +96,15 @@ Definition size_case (T : R.tables) (NE : list str) (ARCHIVE : R.extractor) (c :
   let '(mm, me, decl, dl, produced) := c in
   let m := {| m_name := s "m.txt"; m_regular := true; m_declared := decl; m_datalen := dl; m_yields := 1 |} in
   Nat.eqb (member_results T (fun _ => s "m.txt") (fun _ => None) NE ARCHIVE mm me m) (if produced then 1 else 0)%nat.
+
+(* ---- FilesInfo property sequence -> arguments of _build_file_list:
+   (num_files, properties in archive order, expected Some [(name, empty_stream, attributes)] | None = Bad7zFile) *)
+Definition entry_eqb (e : entry) (g : str * bool * N) : bool :=
+  let '(n, b, a) := g in str_eqb (e_name e) n && Bool.eqb (e_empty e) b && N.eqb (e_attr e) a.
+Definition filesinfo_case (c : nat * list fprop * option (list (str * bool * N))) : bool :=
+  let '(n, ps, want) := c in
+  match parse_files_info n ps, want with
+  | Some es, Some w => list_eqb entry_eqb es w
+  | None, None => true
+  | _, _ => false
+  end.
